@@ -172,11 +172,9 @@ Qed.
 Section FLM.
   Variables (a b : list line) (alo ahi blo bhi : nat).
 
-  (* entries of j2len before row i: (j,k) is a match of length k ending at a[i-1], b[j] *)
-  Definition j2ok (i : nat) (m : list (nat * nat)) : Prop :=
-    forall j k, In (j, k) m ->
-      1 <= k /\ alo + k <= i /\ blo + k <= S j /\ j < bhi /\
-      forall t, t < k -> nth (i - 1 - t) a [] = nth (j - t) b [].
+  Local Notation j2ok := (DifflibSpec.j2ok a b alo blo bhi).
+  Local Notation left_cond := (DifflibSpec.left_cond a b alo blo).
+  Local Notation right_cond := (DifflibSpec.right_cond a b ahi bhi).
 
   Lemma j2ok_nil i : j2ok i [].
   Proof. intros j k []. Qed.
@@ -288,19 +286,12 @@ Section FLM.
     intros t Ht. destruct (Nat.eq_dec t k) as [->|Hne]; [assumption|]. apply H5. lia.
   Qed.
 
-  (* loop conditions, as booleans *)
-  Definition left_cond (m : blk) : bool :=
-    let '(i, j, k) := m in (alo <? i) && (blo <? j) && beq (nth (i - 1) a []) (nth (j - 1) b []).
-  Definition right_cond (m : blk) : bool :=
-    let '(i, j, k) := m in
-    (i + k <? ahi) && (j + k <? bhi) && beq (nth (i + k) a []) (nth (j + k) b []).
-
   (* fuel: the loops stop because their condition fails, not because fuel ran out *)
   Lemma ext_left_fuel_enough fuel : forall i j k,
     i <= fuel -> left_cond (ext_left a b alo blo fuel (i, j, k)) = false.
   Proof.
     induction fuel as [|f IH]; intros i j k Hf; cbn [ext_left].
-    - unfold left_cond. replace i with 0 by lia. reflexivity.
+    - unfold DifflibSpec.left_cond. replace i with 0 by lia. reflexivity.
     - destruct ((alo <? i) && (blo <? j) && beq (nth (i - 1) a []) (nth (j - 1) b [])) eqn:C.
       + apply IH. lia.
       + exact C.
@@ -310,7 +301,7 @@ Section FLM.
     ahi <= fuel + (i + k) -> right_cond (ext_right a b ahi bhi fuel (i, j, k)) = false.
   Proof.
     induction fuel as [|f IH]; intros i j k Hf; cbn [ext_right].
-    - unfold right_cond. destruct (Nat.ltb_spec (i + k) ahi); [lia|reflexivity].
+    - unfold DifflibSpec.right_cond. destruct (Nat.ltb_spec (i + k) ahi); [lia|reflexivity].
     - destruct ((i + k <? ahi) && (j + k <? bhi) && beq (nth (i + k) a []) (nth (j + k) b [])) eqn:C.
       + apply IH. lia.
       + exact C.
@@ -508,16 +499,6 @@ Proof.
       * eapply chain_weaken; [| |exact Hrest]; lia.
 Qed.
 
-(* adjacent triples never describe adjacent equal blocks (the doc comment of getMatchingBlocks) *)
-Fixpoint non_adjacent (l : list blk) : Prop :=
-  match l with
-  | x :: r => match r with
-              | y :: _ => ~ (fst (fst x) + snd x = fst (fst y) /\ snd (fst x) + snd x = snd (fst y))
-              | [] => True
-              end /\ non_adjacent r
-  | [] => True
-  end.
-
 Lemma merge_adjacent_head l : forall i1 j1 k1,
   match merge_adjacent (i1, j1, k1) l with
   | [] => True
@@ -534,8 +515,6 @@ Proof.
 Qed.
 
 (* ---- the theorems about matching_blocks ---- *)
-
-Definition sentinel (a b : list line) : blk := (length a, length b, 0).
 
 Lemma matching_blocks_shape a b :
   exists l, matching_blocks a b = l ++ [sentinel a b] /\
@@ -598,4 +577,502 @@ Proof.
       rewrite <- E'. apply in_or_app. left. apply in_or_app. right. now left. }
     rewrite Forall_forall in Hp. apply (Hp _ Hin). }
   lia.
+Qed.
+
+Lemma merge_adjacent_non_adjacent l : forall i1 j1 k1,
+  Forall (fun m => 0 < blk_size m) l -> non_adjacent (merge_adjacent (i1, j1, k1) l).
+Proof.
+  induction l as [|[[i2 j2] k2] r IH]; intros i1 j1 k1 Hp; cbn [merge_adjacent].
+  - cbn [emit_blk]. destruct (0 <? k1); cbn; auto.
+  - inversion Hp as [|? ? Hk2 Hr]; subst. cbn in Hk2.
+    destruct ((i1 + k1 =? i2) && (j1 + k1 =? j2)) eqn:C; [now apply IH|].
+    cbn [emit_blk]. destruct (Nat.ltb_spec 0 k1) as [Hk1|Hk1]; cbn [app]; [|now apply IH].
+    cbn [non_adjacent]. split; [|now apply IH].
+    pose proof (merge_adjacent_head r i2 j2 k2) as Hh.
+    destruct (merge_adjacent (i2, j2, k2) r) as [|[[i j] k] rest]; [exact I|].
+    destruct (Hh Hk2) as [-> ->]. cbn. intros [E1 E2].
+    apply andb_false_iff in C as [C|C]; apply Nat.eqb_neq in C; lia.
+Qed.
+
+(** adjacent triples (sentinel excluded) never describe adjacent equal blocks *)
+Theorem matching_blocks_non_adjacent a b :
+  exists l, matching_blocks a b = l ++ [(length a, length b, 0)] /\ non_adjacent l.
+Proof.
+  exists (merge_adjacent (0, 0, 0) (raw_blocks a b)). split; [reflexivity|].
+  apply merge_adjacent_non_adjacent. apply match_blocks_pos.
+Qed.
+
+(* ================================================================== *)
+(** * getOpCodes *)
+
+Lemma blocks_end_app i j l x : blocks_end i j (l ++ [x]) = (fst (fst x) + snd x, snd (fst x) + snd x).
+Proof.
+  revert i j; induction l as [|[[ai bj] s] r IH]; intros i j; cbn.
+  - now destruct x as [[? ?] ?].
+  - apply IH.
+Qed.
+
+Lemma tiles_app i j l1 l2 mi mj ie je :
+  tiles i j l1 mi mj -> tiles mi mj l2 ie je -> tiles i j (l1 ++ l2) ie je.
+Proof.
+  revert i j; induction l1 as [|c r IH]; intros i j H1 H2; cbn in H1 |- *.
+  - destruct H1 as [-> ->]. exact H2.
+  - destruct H1 as (Ha & Hb & Hc). repeat split; try assumption. now apply IH.
+Qed.
+
+Lemma gap_op_tiles i j ai bj : i <= ai -> j <= bj -> tiles i j (gap_op i j ai bj) ai bj.
+Proof.
+  intros Hi Hj. unfold gap_op.
+  destruct (Nat.ltb_spec i ai), (Nat.ltb_spec j bj); cbn; repeat split; lia.
+Qed.
+
+Lemma gap_op_wf a b i j ai bj : i <= ai -> j <= bj -> Forall (op_wf a b) (gap_op i j ai bj).
+Proof.
+  intros Hi Hj. unfold gap_op.
+  destruct (Nat.ltb_spec i ai), (Nat.ltb_spec j bj); cbn [andb]; repeat constructor; cbn; lia.
+Qed.
+
+Lemma opcodes_from_tiles a b ahi bhi ms : forall i j,
+  chain a b ahi bhi i j ms ->
+  tiles i j (opcodes_from i j ms) (fst (blocks_end i j ms)) (snd (blocks_end i j ms)).
+Proof.
+  induction ms as [|[[ai bj] size] r IH]; intros i j H; cbn [opcodes_from blocks_end].
+  - cbn. auto.
+  - cbn [chain] in H. destruct H as (H1 & H2 & H3 & H4).
+    eapply tiles_app; [apply gap_op_tiles; assumption|].
+    eapply tiles_app; [|apply IH; exact H4].
+    destruct (Nat.ltb_spec 0 size); cbn; repeat split; lia.
+Qed.
+
+Lemma opcodes_from_wf a b ms : forall i j,
+  chain a b (length a) (length b) i j ms -> Forall (op_wf a b) (opcodes_from i j ms).
+Proof.
+  induction ms as [|[[ai bj] size] r IH]; intros i j H; cbn [opcodes_from].
+  - constructor.
+  - cbn [chain] in H. destruct H as (H1 & H2 & H3 & H4).
+    apply Forall_app. split; [now apply gap_op_wf|].
+    apply Forall_app. split; [|now apply IH].
+    destruct (Nat.ltb_spec 0 size) as [Hs|Hs]; constructor; [|constructor].
+    apply chain_le in H4.
+    unfold op_wf. cbn. repeat split; try lia. apply eq_run_slice; try lia. exact H3.
+Qed.
+
+(* ---- unpacking [tiles] ---- *)
+
+Lemma tiles_abuts i j ops ie je : tiles i j ops ie je -> abuts ops.
+Proof.
+  revert i j; induction ops as [|c r IH]; intros i j H; cbn in H |- *; [exact I|].
+  destruct H as (_ & _ & H). split; [|eapply IH; exact H].
+  destruct r as [|d r']; [exact I|]. cbn in H. destruct H as (H1 & H2 & _). now split.
+Qed.
+
+Lemma tiles_first i j c r ie je : tiles i j (c :: r) ie je -> i1 c = i /\ j1 c = j.
+Proof. cbn. intros (H1 & H2 & _). now split. Qed.
+
+Lemma tiles_last i j l c ie je : tiles i j (l ++ [c]) ie je -> i2 c = ie /\ j2 c = je.
+Proof.
+  revert i j; induction l as [|d r IH]; intros i j H; cbn in H.
+  - destruct H as (_ & _ & H). exact H.
+  - destruct H as (_ & _ & H). eapply IH. exact H.
+Qed.
+
+Lemma abuts_mid l1 c d l2 : abuts (l1 ++ c :: d :: l2) -> i1 d = i2 c /\ j1 d = j2 c.
+Proof.
+  induction l1 as [|x r IH]; cbn [app abuts]; intros [H1 H2]; [exact H1|now apply IH].
+Qed.
+
+(* monotonicity: with well-formed opcodes a tiling only moves forward *)
+Lemma tiles_le a b i j ops ie je :
+  Forall (op_wf a b) ops -> tiles i j ops ie je -> i <= ie /\ j <= je.
+Proof.
+  revert i j; induction ops as [|c r IH]; intros i j Hwf H; cbn in H.
+  - lia.
+  - inversion Hwf as [|? ? Hc Hr]; subst. destruct H as (H1 & H2 & H3).
+    apply IH in H3; [|assumption]. destruct Hc as (G1 & G2 & _). lia.
+Qed.
+
+(* every opcode of a tiling lies inside it *)
+Lemma tiles_In_bounds a b i j ops ie je c :
+  Forall (op_wf a b) ops -> tiles i j ops ie je -> In c ops ->
+  i <= i1 c /\ i2 c <= ie /\ j <= j1 c /\ j2 c <= je.
+Proof.
+  revert i j; induction ops as [|d r IH]; intros i j Hwf H Hin; [contradiction|].
+  inversion Hwf as [|? ? Hd Hr]; subst. cbn in H. destruct H as (H1 & H2 & H3).
+  destruct Hin as [->|Hin].
+  - pose proof (tiles_le _ _ _ _ _ _ _ Hr H3). lia.
+  - destruct (IH _ _ Hr H3 Hin). destruct Hd as (G1 & G2 & _). lia.
+Qed.
+
+(* ---- the theorems about get_opcodes ---- *)
+
+Lemma get_opcodes_tiles a b : tiles 0 0 (get_opcodes a b) (length a) (length b).
+Proof.
+  unfold get_opcodes.
+  pose proof (opcodes_from_tiles a b _ _ _ 0 0 (matching_blocks_chain a b)) as H.
+  destruct (matching_blocks_last a b) as (l & E & _). rewrite E in H at 2 3.
+  rewrite blocks_end_app in H. cbn in H. now rewrite !Nat.add_0_r in H.
+Qed.
+
+Lemma get_opcodes_wf a b : Forall (op_wf a b) (get_opcodes a b).
+Proof. apply opcodes_from_wf, matching_blocks_chain. Qed.
+
+(** opcodes_tile *)
+Theorem opcodes_tile_first a b c r :
+  get_opcodes a b = c :: r -> i1 c = 0 /\ j1 c = 0.
+Proof. intros E. pose proof (get_opcodes_tiles a b) as H. rewrite E in H. eapply tiles_first, H. Qed.
+
+Theorem opcodes_tile_abut a b l1 c d l2 :
+  get_opcodes a b = l1 ++ c :: d :: l2 -> i1 d = i2 c /\ j1 d = j2 c.
+Proof.
+  intros E. pose proof (tiles_abuts _ _ _ _ _ (get_opcodes_tiles a b)) as H. rewrite E in H.
+  eapply abuts_mid, H.
+Qed.
+
+Theorem opcodes_tile_last a b l c :
+  get_opcodes a b = l ++ [c] -> i2 c = length a /\ j2 c = length b.
+Proof. intros E. pose proof (get_opcodes_tiles a b) as H. rewrite E in H. eapply tiles_last, H. Qed.
+
+Theorem opcodes_tile_nil : get_opcodes [] [] = [].
+Proof. reflexivity. Qed.
+
+(* conversely an empty script only happens for two empty sequences *)
+Theorem opcodes_nil_inv a b : get_opcodes a b = [] -> a = [] /\ b = [].
+Proof.
+  intros E. pose proof (get_opcodes_tiles a b) as H. rewrite E in H. cbn in H.
+  destruct H as [Ha Hb]. split; apply length_zero_iff_nil; congruence.
+Qed.
+
+Theorem opcodes_in_bounds a b c :
+  In c (get_opcodes a b) -> i1 c <= i2 c /\ i2 c <= length a /\ j1 c <= j2 c /\ j2 c <= length b.
+Proof.
+  intros Hin.
+  destruct (tiles_In_bounds a b _ _ _ _ _ c (get_opcodes_wf a b) (get_opcodes_tiles a b) Hin)
+    as (_ & H2 & _ & H4).
+  pose proof (get_opcodes_wf a b) as Hwf. rewrite Forall_forall in Hwf.
+  destruct (Hwf _ Hin) as (G1 & G2 & _). lia.
+Qed.
+
+(** opcodes_equal_sound *)
+Theorem opcodes_equal_sound a b c :
+  In c (get_opcodes a b) ->
+  match op_tag c with
+  | Equal => slice a (i1 c) (i2 c) = slice b (j1 c) (j2 c) /\ i1 c < i2 c /\ j1 c < j2 c
+  | Insert => i1 c = i2 c /\ j1 c < j2 c
+  | Delete => i1 c < i2 c /\ j1 c = j2 c
+  | Replace => i1 c < i2 c /\ j1 c < j2 c
+  end.
+Proof.
+  intros Hin. pose proof (get_opcodes_wf a b) as Hwf. rewrite Forall_forall in Hwf.
+  destruct (Hwf _ Hin) as (_ & _ & H). destruct (op_tag c); tauto.
+Qed.
+
+Corollary opcodes_nonempty a b c : In c (get_opcodes a b) -> i1 c < i2 c \/ j1 c < j2 c.
+Proof.
+  intros Hin. pose proof (opcodes_equal_sound a b c Hin) as H. destruct (op_tag c); lia.
+Qed.
+
+(** opcodes_replay *)
+Lemma replay_tiles a b ops : forall i j ie je,
+  Forall (op_wf a b) ops -> tiles i j ops ie je ->
+  replay_b a b ops = slice b j je /\ replay_a a ops = slice a i ie.
+Proof.
+  induction ops as [|c r IH]; intros i j ie je Hwf H; cbn in H.
+  - destruct H as [-> ->]. unfold replay_b, replay_a. cbn. now rewrite !slice_nil.
+  - inversion Hwf as [|? ? Hc Hr]; subst. destruct H as (<- & <- & H3).
+    pose proof (tiles_le _ _ _ _ _ _ _ Hr H3) as [Hle1 Hle2].
+    destruct (IH _ _ _ _ Hr H3) as [IHb IHa].
+    unfold replay_b, replay_a in *. cbn [map concat]. rewrite IHb, IHa.
+    destruct Hc as (G1 & G2 & G3).
+    unfold replay_b_op, replay_a_op. destruct (op_tag c).
+    + destruct G3 as (_ & _ & E). split; [rewrite E|]; apply slice_app_adj; lia.
+    + destruct G3 as (E & _). split; [apply slice_app_adj; lia|]. rewrite E. reflexivity.
+    + destruct G3 as (_ & E). split; [|apply slice_app_adj; lia]. rewrite E. reflexivity.
+    + split; apply slice_app_adj; lia.
+Qed.
+
+Theorem opcodes_replay a b :
+  replay_b a b (get_opcodes a b) = b /\ replay_a a (get_opcodes a b) = a.
+Proof.
+  destruct (replay_tiles a b _ _ _ _ _ (get_opcodes_wf a b) (get_opcodes_tiles a b)) as [Hb Ha].
+  now rewrite Hb, Ha, !slice_full.
+Qed.
+
+(* a script without changes means equal inputs *)
+Lemma replay_all_equal a b ops :
+  forallb is_equal ops = true -> replay_b a b ops = replay_a a ops.
+Proof.
+  induction ops as [|c r IH]; intros H; [reflexivity|]. cbn in H.
+  apply andb_prop in H as [Hc Hr]. unfold replay_b, replay_a in *. cbn [map concat].
+  rewrite (IH Hr). f_equal. unfold replay_b_op, replay_a_op, is_equal in *.
+  destruct (op_tag c); try discriminate. reflexivity.
+Qed.
+
+Theorem opcodes_all_equal_same a b : forallb is_equal (get_opcodes a b) = true -> a = b.
+Proof.
+  intros H. destruct (opcodes_replay a b) as [Hb Ha].
+  pose proof (replay_all_equal a b _ H) as E. congruence.
+Qed.
+
+(* residual: what is kept of a equals what is kept of b, opcode by opcode *)
+Theorem opcodes_kept_same a b :
+  map (kept_a_of a) (get_opcodes a b) = map (kept_b_of b) (get_opcodes a b).
+Proof.
+  apply map_ext_in. intros c Hin. pose proof (opcodes_equal_sound a b c Hin) as H.
+  unfold kept_a_of, kept_b_of. destruct (op_tag c); try reflexivity. apply H.
+Qed.
+
+(* ================================================================== *)
+(** * GetGroupedOpCodes *)
+
+Lemma is_equal_trim_head n c : is_equal (trim_head n c) = is_equal c.
+Proof. reflexivity. Qed.
+Lemma is_equal_trim_tail n c : is_equal (trim_tail n c) = is_equal c.
+Proof. reflexivity. Qed.
+
+Lemma fix_first_filter n codes :
+  filter non_equal (fix_first n codes) = filter non_equal codes.
+Proof.
+  destruct codes as [|c r]; [reflexivity|]. cbn [fix_first].
+  destruct (is_equal c) eqn:E; [|reflexivity].
+  cbn [filter]. unfold non_equal. now rewrite is_equal_trim_head, E.
+Qed.
+
+Lemma fix_last_snoc n l c :
+  fix_last n (l ++ [c]) = l ++ [if is_equal c then trim_tail n c else c].
+Proof.
+  induction l as [|d r IH]; cbn [app fix_last].
+  - now destruct (is_equal c).
+  - destruct (r ++ [c]) eqn:E; [now destruct r|]. now rewrite <- IH.
+Qed.
+
+Lemma list_snoc_cases {A} (l : list A) : l = [] \/ exists l' x, l = l' ++ [x].
+Proof.
+  destruct l as [|y l]; [now left|right].
+  destruct (@exists_last _ (y :: l)) as (l' & x & E); [discriminate|]. now exists l', x.
+Qed.
+
+Lemma fix_last_filter n codes :
+  filter non_equal (fix_last n codes) = filter non_equal codes.
+Proof.
+  destruct (list_snoc_cases codes) as [->|(l & c & ->)]; [reflexivity|].
+  rewrite fix_last_snoc, !filter_app. f_equal.
+  destruct (is_equal c) eqn:E; [|reflexivity].
+  cbn [filter]. unfold non_equal. now rewrite is_equal_trim_tail, E.
+Qed.
+
+Lemma keep_group_false_filter g : keep_group g = false -> filter non_equal g = [].
+Proof.
+  destruct g as [|c [|d r]]; cbn; try discriminate; [reflexivity|].
+  unfold non_equal. intros ->. reflexivity.
+Qed.
+
+Lemma group_loop_filter n codes : forall group,
+  filter non_equal (concat (group_loop n codes group)) = filter non_equal (group ++ codes).
+Proof.
+  induction codes as [|c r IH]; intros group; cbn [group_loop].
+  - rewrite app_nil_r. destruct (keep_group group) eqn:K; cbn [concat].
+    + now rewrite app_nil_r.
+    + rewrite (keep_group_false_filter group K). reflexivity.
+  - destruct (is_equal c && (n + n <? i2 c - i1 c)) eqn:C.
+    + apply andb_prop in C as [E _]. cbn [concat]. rewrite filter_app, IH, !filter_app.
+      assert (N1 : non_equal (trim_tail n c) = false) by (unfold non_equal; now rewrite is_equal_trim_tail, E).
+      assert (N2 : non_equal (trim_head n c) = false) by (unfold non_equal; now rewrite is_equal_trim_head, E).
+      assert (N3 : non_equal c = false) by (unfold non_equal; now rewrite E).
+      cbn [filter]. rewrite N1, N2, N3. cbn [app]. now rewrite app_nil_r.
+    + rewrite IH, <- app_assoc. reflexivity.
+Qed.
+
+Theorem grouped_of_codes_no_change_lost n codes :
+  filter non_equal (concat (grouped_of_codes n codes)) = filter non_equal codes.
+Proof.
+  unfold grouped_of_codes. rewrite group_loop_filter. cbn [app].
+  rewrite fix_last_filter, fix_first_filter. now destruct codes.
+Qed.
+
+(** grouped_no_change_lost, for every context size n (the code uses n = 3) *)
+Theorem grouped_no_change_lost n a b :
+  filter non_equal (concat (grouped_opcodes n a b)) = filter non_equal (get_opcodes a b).
+Proof. apply grouped_of_codes_no_change_lost. Qed.
+
+(* ---- abutting inside groups ---- *)
+
+Lemma abuts_app_l l1 l2 : abuts (l1 ++ l2) -> abuts l1.
+Proof.
+  induction l1 as [|c r IH]; cbn [app abuts]; [auto|]. intros [H1 H2]. split; [|now apply IH].
+  destruct r as [|d r']; [exact I|exact H1].
+Qed.
+
+Lemma abuts_app_r l1 l2 : abuts (l1 ++ l2) -> abuts l2.
+Proof. induction l1 as [|c r IH]; cbn [app abuts]; [auto|]. intros [_ H]. now apply IH. Qed.
+
+Lemma abuts_change_head c c' r :
+  i2 c' = i2 c -> j2 c' = j2 c -> abuts (c :: r) -> abuts (c' :: r).
+Proof. intros E1 E2. cbn. rewrite E1, E2. auto. Qed.
+
+Lemma abuts_change_last l c c' :
+  i1 c' = i1 c -> j1 c' = j1 c -> abuts (l ++ [c]) -> abuts (l ++ [c']).
+Proof.
+  intros E1 E2. induction l as [|d r IH]; cbn [app abuts]; [auto|].
+  intros [H1 H2]. split; [|now apply IH].
+  destruct r as [|e r']; cbn [app] in *; [now rewrite E1, E2|exact H1].
+Qed.
+
+Lemma fix_first_abuts n codes : abuts codes -> abuts (fix_first n codes).
+Proof.
+  destruct codes as [|c r]; [auto|]. cbn [fix_first]. destruct (is_equal c); [|auto].
+  now apply abuts_change_head.
+Qed.
+
+Lemma fix_last_abuts n codes : abuts codes -> abuts (fix_last n codes).
+Proof.
+  destruct (list_snoc_cases codes) as [->|(l & c & ->)]; [auto|].
+  rewrite fix_last_snoc. destruct (is_equal c); [|auto]. now apply abuts_change_last.
+Qed.
+
+Lemma group_loop_abuts n codes : forall group,
+  abuts (group ++ codes) -> Forall abuts (group_loop n codes group).
+Proof.
+  induction codes as [|c r IH]; intros group H; cbn [group_loop].
+  - rewrite app_nil_r in H. destruct (keep_group group); repeat constructor. exact H.
+  - destruct (is_equal c && (n + n <? i2 c - i1 c)).
+    + constructor.
+      * apply (abuts_change_last group c); try reflexivity.
+        apply (abuts_app_l _ r). now rewrite <- app_assoc.
+      * apply IH. cbn [app]. apply (abuts_change_head c); try reflexivity.
+        now apply abuts_app_r in H.
+    + apply IH. now rewrite <- app_assoc.
+Qed.
+
+Lemma grouped_of_codes_abuts n codes : abuts codes -> Forall abuts (grouped_of_codes n codes).
+Proof.
+  intros H. unfold grouped_of_codes. apply group_loop_abuts. cbn [app].
+  apply fix_last_abuts, fix_first_abuts. destruct codes; [cbn; auto|exact H].
+Qed.
+
+(** within each group consecutive opcodes abut *)
+Theorem grouped_abut n a b : Forall abuts (grouped_opcodes n a b).
+Proof. apply grouped_of_codes_abuts. eapply tiles_abuts, get_opcodes_tiles. Qed.
+
+Corollary grouped_abut_mid n a b g l1 c d l2 :
+  In g (grouped_opcodes n a b) -> g = l1 ++ c :: d :: l2 -> i1 d = i2 c /\ j1 d = j2 c.
+Proof.
+  intros Hin ->. pose proof (grouped_abut n a b) as H. rewrite Forall_forall in H.
+  eapply abuts_mid, H, Hin.
+Qed.
+
+(* ---- groups are never empty (printRange indexes opcodes[0]) ---- *)
+
+Lemma group_loop_nonempty n codes : forall group,
+  Forall (fun g => g <> []) (group_loop n codes group).
+Proof.
+  induction codes as [|c r IH]; intros group; cbn [group_loop].
+  - destruct group as [|x g]; [cbn; constructor|].
+    destruct (keep_group (x :: g)); [|constructor].
+    constructor; [discriminate|constructor].
+  - destruct (is_equal c && (n + n <? i2 c - i1 c)); [|apply IH].
+    constructor; [|apply IH]. now destruct group.
+Qed.
+
+Theorem grouped_nonempty n a b : Forall (fun g => g <> []) (grouped_opcodes n a b).
+Proof. apply group_loop_nonempty. Qed.
+
+(* ---- opcodes inside groups are still sound ---- *)
+
+Lemma slice_suffix {A} (l : list A) i1 i1' i2 :
+  i1 <= i1' -> i1' <= i2 -> i2 <= length l ->
+  slice l i1' i2 = skipn (i1' - i1) (slice l i1 i2).
+Proof.
+  intros H1 H2 H3. rewrite <- (slice_app_adj l i1 i1' i2) by assumption.
+  rewrite skipn_app, slice_length by lia.
+  rewrite skipn_all2 by (rewrite slice_length; lia).
+  now rewrite Nat.sub_diag.
+Qed.
+
+Lemma slice_prefix {A} (l : list A) i1 i2' i2 :
+  i1 <= i2' -> i2' <= i2 -> i2 <= length l ->
+  slice l i1 i2' = firstn (i2' - i1) (slice l i1 i2).
+Proof.
+  intros H1 H2 H3. rewrite <- (slice_app_adj l i1 i2' i2) by assumption.
+  rewrite firstn_app, slice_length by lia.
+  rewrite firstn_all2 by (rewrite slice_length; lia).
+  now rewrite Nat.sub_diag, firstn_O, app_nil_r.
+Qed.
+
+Lemma trim_head_ok a b n c : op_ok a b c -> op_ok a b (trim_head n c).
+Proof.
+  intros (H1 & H2 & H3 & H4 & H5). unfold op_ok, trim_head. cbn [i1 i2 j1 j2 op_tag].
+  do 4 (split; [lia|]). intros Ht. destruct (H5 Ht) as [E Es]. split; [lia|].
+  rewrite (slice_suffix a (i1 c)), (slice_suffix b (j1 c)) by lia.
+  rewrite Es. f_equal. lia.
+Qed.
+
+Lemma trim_tail_ok a b n c : op_ok a b c -> op_ok a b (trim_tail n c).
+Proof.
+  intros (H1 & H2 & H3 & H4 & H5). unfold op_ok, trim_tail. cbn [i1 i2 j1 j2 op_tag].
+  do 4 (split; [lia|]). intros Ht. destruct (H5 Ht) as [E Es]. split; [lia|].
+  rewrite (slice_prefix a (i1 c) _ (i2 c)), (slice_prefix b (j1 c) _ (j2 c)) by lia.
+  rewrite Es. f_equal. lia.
+Qed.
+
+Lemma fix_first_ok a b n codes : Forall (op_ok a b) codes -> Forall (op_ok a b) (fix_first n codes).
+Proof.
+  destruct codes as [|c r]; [auto|]. intros H. cbn [fix_first]. destruct (is_equal c); [|exact H].
+  inversion H; subst. constructor; [now apply trim_head_ok|assumption].
+Qed.
+
+Lemma fix_last_ok a b n codes : Forall (op_ok a b) codes -> Forall (op_ok a b) (fix_last n codes).
+Proof.
+  destruct (list_snoc_cases codes) as [->|(l & c & ->)]; [auto|]. intros H.
+  rewrite fix_last_snoc. apply Forall_app in H as [Hl Hc]. apply Forall_app. split; [exact Hl|].
+  inversion Hc; subst. constructor; [|constructor]. destruct (is_equal c); [now apply trim_tail_ok|assumption].
+Qed.
+
+Lemma group_loop_ok a b n codes : forall group,
+  Forall (op_ok a b) group -> Forall (op_ok a b) codes ->
+  Forall (Forall (op_ok a b)) (group_loop n codes group).
+Proof.
+  induction codes as [|c r IH]; intros group Hg Hc; cbn [group_loop].
+  - destruct (keep_group group); [|constructor]. constructor; [exact Hg|constructor].
+  - inversion Hc as [|? ? Hc1 Hr]; subst.
+    destruct (is_equal c && (n + n <? i2 c - i1 c)).
+    + constructor.
+      * apply Forall_app. split; [exact Hg|]. constructor; [now apply trim_tail_ok|constructor].
+      * apply IH; [|exact Hr]. constructor; [now apply trim_head_ok|constructor].
+    + apply IH; [|exact Hr]. apply Forall_app. split; [exact Hg|]. constructor; [exact Hc1|constructor].
+Qed.
+
+(* the made-up opcode {Equal,0,1,0,1} for an empty script never reaches a group *)
+Lemma grouped_of_codes_nil n : grouped_of_codes n [] = [].
+Proof. destruct n as [|[|n]]; reflexivity. Qed.
+
+Lemma get_opcodes_ok a b : Forall (op_ok a b) (get_opcodes a b).
+Proof.
+  apply Forall_forall. intros c Hin.
+  destruct (opcodes_in_bounds a b c Hin) as (H1 & H2 & H3 & H4).
+  pose proof (opcodes_equal_sound a b c Hin) as Hs.
+  unfold op_ok. do 4 (split; [assumption|]). intros E. rewrite E in Hs. destruct Hs as (Es & _ & _).
+  split; [|exact Es].
+  apply (f_equal (@length line)) in Es. now rewrite !slice_length in Es by assumption.
+Qed.
+
+(** every opcode of every group lies inside both sequences; an Equal one still relates two
+    identical slices (so the "  " context lines of the report are common lines); a non-Equal
+    one is an opcode of the full script, untouched *)
+Theorem grouped_ops_sound n a b g c :
+  In g (grouped_opcodes n a b) -> In c g ->
+  op_ok a b c /\ (op_tag c <> Equal -> In c (get_opcodes a b)).
+Proof.
+  intros Hg Hc. split.
+  - unfold grouped_opcodes in Hg.
+    destruct (get_opcodes a b) as [|c0 r] eqn:E; [now rewrite grouped_of_codes_nil in Hg|].
+    pose proof (get_opcodes_ok a b) as Hok. rewrite E in Hok.
+    unfold grouped_of_codes in Hg.
+    assert (H : Forall (Forall (op_ok a b)) (group_loop n (fix_last n (fix_first n (c0 :: r))) [])).
+    { apply group_loop_ok; [constructor|]. now apply fix_last_ok, fix_first_ok. }
+    rewrite Forall_forall in H. specialize (H g Hg). rewrite Forall_forall in H. now apply H.
+  - intros Hne.
+    assert (Hin : In c (filter non_equal (concat (grouped_opcodes n a b)))).
+    { apply filter_In. split; [apply in_concat; eauto|].
+      unfold non_equal, is_equal. destruct (op_tag c); try reflexivity. congruence. }
+    rewrite grouped_no_change_lost in Hin. now apply filter_In in Hin.
 Qed.
